@@ -31,11 +31,16 @@ IPish == { <<49,57,50,46,49,54,56,46,49,48,48,46,50,48,48>>,        \* 192.168.1
            <<49,46,50,46,51,46,52>>,                                 \* 1.2.3.4 : labels too short anyway
            <<102,101,56,48,58,58,49>>,                               \* fe80::1 : colon
            <<50,48,48,49,46,100,98,56,46,97,97,97>> }                \* 2001.db8.aaa : a name
+SampleLabels == {<<97, 98, 99>>, <<97, 45, 57>>, <<48, 122, 48, 49>>}     \* abc, a-9, 0z01
+SepBytes == (33..126) \ {47}                                                \* printable, without '/'
 ExtraNames ==
      {Rep(97, n) : n \in 1..70}                                     \* a, aa, ... (63 is the longest valid)
 \cup {Rep(97, 3) \o <<46>> \o Rep(98, n) : n \in 55..62}           \* two labels around the length limit
 \cup {Rep(97, 30) \o <<46>> \o Rep(48, 3) \o <<46>> \o Rep(45, 1) \o Rep(122, 2)}
 \cup IPish
+\* well-formed labels joined by every printable byte as "separator" (only '.' is one), two and three labels
+\cup {l1 \o <<c>> \o l2 : l1 \in SampleLabels, l2 \in SampleLabels, c \in SepBytes}
+\cup {l1 \o <<46>> \o l2 \o <<c>> \o l1 : l1 \in SampleLabels, l2 \in SampleLabels, c \in SepBytes}
 
 Names(p) == IF p = <<0>> THEN ExtraNames ELSE NamesOf(p)
 
